@@ -4,7 +4,7 @@ Cases are *descriptions* of in-memory pydicom datasets (+ an extractor configura
 dataset, records how pydicom presents every element (tag, VR, VM, keyword, name, value object and its Python
 class) -- that abstract list is what the Coq model is fed, so pydicom itself stays outside the model -- and runs
 the real MetaExtractor.  The oracle re-states the property in Python on the observation alone."""
-import os, sys, json, math
+import os, sys, json, math, struct
 
 from vlib.coqlit import cstr, cN, cz, cnat, cbool, clist, copt, cpair, cbytes
 
@@ -15,35 +15,40 @@ THEOREMS = ["C15_partition", "C15_never", "C15_never_default", "C15_injective", 
             "C15_decl_agree", "C15_decl_keys", "C15_decl_pieces", "C15_json_serialisable", "C15_appears",
             "C15_private_enabled", "C15_fuel_total"]
 ALLOWED_AXIOMS = []
-RULE = ("in-memory pydicom datasets over CS LO SH DS IS US SS UL SL FL FD UI PN DA TM AT OB OW UN SQ(depth<=3) x VM {0,1,n}, "
-        "empty/None/blank values, private blocks at reserved slots 0x10..0xff with and without registered translators "
-        "(custom deterministic Translator functions, the default CSA translators on non-CSA blobs), name clashes "
-        "(equal private names, private name = standard keyword, unknown tags), pixel (PixelData, FloatPixelData OF, DoubleFloatPixelData OD) / overlay / LUT elements, and "
-        "configurations of ignore rules / translators / conversions; one F12 case (same creator in two blocks) in every run; "
-        "a separate malformed stream (text value under a numeric VR, two translators for one slot, raising translator with "
-        "warn_on_trans_except=False).  Non-trivial = at least 3 elements reach the result or an error branch is taken")
+RULE = ("pydicom datasets over every VR pydicom 3 knows except the ambiguous US-or-OW kinds (AE AS AT CS DA DS DT FD FL IS LO LT OB OD OF OL OV OW "
+        "PN SH SL SQ(depth<=4) SS ST SV TM UC UI UL UN UR US UT UV, 'US or SS', 'OB or OW', 'OW or OB') x VM {0,1,n}, empty/None/blank values, "
+        "private blocks at ANY reserved slot 0x10..0xff (222 distinct slots per quick run) with and without registered translators, private "
+        "sequences whose items carry their own blocks, custom deterministic Translator functions, the default CSA translators on syntactically "
+        "valid CSA2 headers built by the generator (tags, multi-valued items, Phoenix protocol) and on non-CSA blobs, name clashes (equal private "
+        "names, private name = standard keyword, unknown tags), pixel (PixelData, FloatPixelData OF, DoubleFloatPixelData OD) / overlay / LUT "
+        "elements, configurations of ignore rules / translators / conversions; built in memory with add_new, or written to a file (explicit / "
+        "implicit VR little endian) and read back (raw file elements, dictionary VRs, UN for private elements under implicit VR); F12 cases "
+        "(one creator in two or three blocks at any slots, private extraction on and off) from the corpus and the generator in every run; a "
+        "separate malformed stream (text under a numeric VR, two translators for one slot, raising translator with warn_on_trans_except=False). "
+        "Non-trivial = at least 3 keys in the result or an exception")
 TRUSTED_BASE = [
-    "pydicom 3 as the provider of each element's tag, VR, VM, keyword, name and value object (inputs of the model, captured per case)",
-    "get_text is an input of the model (`c_get_text`); with chardet absent it is instantiated by the printable-ASCII rule of is_ascii",
-    "translation functions are inputs of the model (`t_fun`); the test translators of props/c15.py are mirrored in Extract/Corr.v `test_trans_fun`; nibabel's csareader is represented only by 'raises on a blob that is not a CSA header'",
+    "pydicom 3 as the provider of each element's tag, VR, VM, keyword, name and value object (inputs of the model, captured per case; not the library under test)",
+    "get_text is an input of the model (`c_get_text`): printable-ASCII rule of is_ascii when chardet is absent; with chardet installed the harness calls chardet itself (not extract.get_text) to build the table, and the oracle independently demands the ASCII decoding for printable-ASCII byte strings",
+    "translation functions are inputs of the model (`t_fun`): the test translators of props/c15.py are mirrored in Extract/Corr.v `test_trans_fun`; for the default CSA translators the expected dictionaries are GENERATOR TRUTH (the tags, items and protocol lines the generator encoded into the blob), nibabel's csareader and the Phoenix parser (C16) are not modelled",
     "floating point values are carried both as exact rationals (Common.PyNum fval, compared with Qeq) and as repr tokens (for str(float) and the sign of zero)",
-    "Common/PyNum.v py_float / py_int as models of float(str) / int(str): on every case the check verifies that a single DS / IS value carrying its text (original_string) has the value py_float(text) / py_int(text) -- the hypothesis of C15_values_default_numeric",
-    "pydicom names an element 'Private Creator' iff group odd and element in 0x10..0xff (Decl.names_wf, hypothesis of C15_decl_*): verified on every case at every nesting level",
+    "pydicom facts used as theorem hypotheses (a DS/IS value carrying its text equals float(text)/int(text); an element is named 'Private Creator' iff group odd and element in 0x10..0xff) are recorded per case (obs.pydicom_facts, Corr.facts) but are NOT part of any verdict: a pydicom that presents values differently is not an extractor defect. Decl.names_wf only gates the declarative key comparison",
     "'extraction does not alter pixel data' has no content in the (pure) model; it is harness-checked on every case (pixel_same)",
+    "results are compared as maps at every nesting level (Model.val_eqb on VDict, Corr.same_keys), exceptions as raised / not raised: the property names neither a key order nor exception classes",
 ]
 ASSUMPTIONS = [
-    "Python 3: the struct.unpack branch of _get_elem_value is reachable only with a text value under a numeric VR and then raises TypeError (modelled as EType); byte strings are never unpacked",
+    "Python 3: the struct.unpack branch of _get_elem_value is reachable only with a text value under a numeric VR and then raises TypeError; byte strings are never unpacked",
     "names used for keys (elements without dictionary keyword) are ASCII; upper-casing of a non-ASCII first letter is outside the model",
-    "values: a multi-valued element is a pydicom MultiValue; one-element lists collapse to scalars (pydicom); tuples, empty lists under VRs without a conversion (they stay MultiValue objects), byte strings under numeric VRs are outside the generated domain",
+    "values: one-element lists collapse to scalars (pydicom); tuples, empty lists under VRs without a conversion (they stay MultiValue objects), byte strings under numeric VRs and the ambiguous VRs 'US or OW' / 'US or SS or OW' (byte strings without any conversion: reported to the integrator) are outside the generated domain; pydicom.config.datetime_conversion is off (with it DA/DT/TM values are date objects, not JSON serialisable)",
     "injectivity holds under the stated hypotheses only: no plain name equals another clashing name plus its tag suffix, no plain key contains '.', translator names are distinct and dot-free, every translator fires at most once (F12 when violated)",
+    "F12 is recognised exactly: a translator name bound to >= 2 elements of one dataset whose translations are truthy, the keys under '<name>.' are precisely those of the LAST translation with its values, and what cannot be recovered are earlier translations. Any other loss (both lost, prefix dropped, other elements of the block missing) is a new failure; a library that keeps every translation recoverable under keys beginning with the translator's name, or that refuses such a dataset with an exception, is accepted",
     "the never-extract guarantee is for configurations that contain the corresponding ignore rule (the default contains all four); pixel data = (7FE0,0008) FloatPixelData, (7FE0,0009) DoubleFloatPixelData, (7FE0,0010) PixelData",
     "observation (behind no_suffix_clash): private names 'foo','foo','foo_0X29_0X1001' at (0029,1001..1003) with ignore_rules=() give 2 keys for 3 elements (the third overwrites Foo_0X29_0X1001)",
     "observation (behind no_dot_keys): a private element named 'T1.Tag' plus a translator T1 returning {'Tag':..}: the plain element's value is overwritten by the translator key",
     "observation: the group of Translator.tag is never compared; a translator declared for (0029,1001) also fires on (0019,1001) when the creator string matches (generators keep the groups equal)",
-    "observation: on Python 3 the struct.unpack branch of _get_elem_value never runs for byte strings; a text value under US/SS/UL/SL/FL/FD raises TypeError (malformed stream)",
-    "observation (outside the property: empty / non-text values): empty UI, PN, OB/OW/UN values and [] under DS/IS yield key -> [] ; [] under a VR without conversion stays a MultiValue (not JSON serialisable); bytes outside 0x20..0x7e (e.g. text with a newline) in OB/OW/UN are dropped by get_text/is_ascii",
-    "JSON-serialisability is checked for configurations whose conversions keep the default get_text / unicode_str entries and for translators returning JSON values",
+    "observation (outside the property: empty / non-text values): empty UI, PN and byte-string values and [] under DS/IS yield key -> [] ; [] under a VR without conversion stays a MultiValue (not JSON serialisable); bytes outside 0x20..0x7e (e.g. text with a newline) in the byte-string VRs are dropped by get_text/is_ascii",
+    "JSON: the oracle walks every extracted value itself; a value is exempt only when the CONFIGURATION removed the default conversion of its VR, when pixel/overlay/LUT data are extracted because the configuration lacks the rule, or for objects outside the generated domain; json.dumps of the whole result must succeed when nothing is exempt",
     "elements whose value is empty (blank text, None, VM 0) or a byte string that is not text are not constrained by the property; the model still predicts what the code does with them",
+    "malformed stream: outside the property; only checked: exceptions are ValueError/TypeError (anything else is reported as a crash), and a raising translator with warn_on_trans_except=False does propagate",
 ]
 
 RULE_NAMES = ["ignore_private", "ignore_pixel_data", "ignore_overlay_data", "ignore_color_lut_data"]
@@ -51,9 +56,12 @@ RULE_COQ = {"ignore_private": "RPrivate", "ignore_pixel_data": "RPixel", "ignore
             "ignore_color_lut_data": "RLut"}
 CONV_COQ = {"float": "CvFloat", "int": "CvInt", "str": "CvStr", "unicode_str": "CvStr", "get_text": "CvText"}
 DEFAULT_CONVS = [["DS", "float"], ["IS", "int"], ["AT", "str"], ["OW", "get_text"], ["OB", "get_text"],
-                 ["OW or OB", "get_text"], ["OB or OW", "get_text"], ["UN", "get_text"], ["PN", "unicode_str"],
-                 ["UI", "unicode_str"]]
-BYTES_VRS = ("OB", "OW", "UN", "OW or OB", "OB or OW")
+                 ["OW or OB", "get_text"], ["OB or OW", "get_text"], ["UN", "get_text"], ["OF", "get_text"], ["OD", "get_text"],
+                 ["OL", "get_text"], ["OV", "get_text"], ["PN", "unicode_str"], ["UI", "unicode_str"]]
+BYTES_VRS = ("OB", "OW", "UN", "OW or OB", "OB or OW", "OF", "OD", "OL", "OV")
+UNCONVERTED_BINARY_VRS = ("US or OW", "US or SS or OW")   # VRs that may hold byte strings and have no default conversion (not generated)
+F12_SIG = 'translator-bound-twice'
+KNOWN_SIGS = (F12_SIG,)
 TEST_CREATORS = ["VERIF A", "VERIF B", "VERIF C"]
 
 # ------------------------------------------------------------------ test translators (mirrored in Extract/Corr.v)
@@ -64,7 +72,7 @@ def _tag_str(tag):
 
 
 def _tf0(elem):
-    return {'Tag': _tag_str(elem.tag), 'VR': elem.VR}
+    return {'Tag': _tag_str(elem.tag), 'VR': str(elem.VR)}
 
 
 def _tf1(elem):
@@ -100,7 +108,44 @@ def _reset_private_dict(entries):
         dd.add_private_dict_entry(creator, tag, vr, name, '1')
 
 
-def _value(spec):
+def _csa_blob(entry):
+    """A syntactically valid Siemens CSA2 header for the tags of [entry] (generator truth: see _csa_truth)."""
+    tags = [list(t) for t in entry['tags']]
+    if entry.get('prot') is not None:
+        lines = ['### ASCCONV BEGIN ###']
+        for k, v in entry['prot']:
+            lines.append('%s = %s' % (k, '""%s""' % v if isinstance(v, str) else repr(v)))
+        lines.append('### ASCCONV END ###')
+        tags.append(['MrPhoenixProtocol', 'UN', ['\n'.join(lines)]])
+    out = b'SV10' + b'\x04\x03\x02\x01' + struct.pack('<II', len(tags), 77)
+    for name, vr, items in tags:
+        out += name.encode('ascii').ljust(64, b'\x00') + struct.pack('<i', len(items)) + vr.encode('ascii').ljust(4, b'\x00')
+        out += struct.pack('<iii', 0, len(items), 77)
+        for it in items:
+            b = it.encode('ascii') + b'\x00'
+            out += struct.pack('<iiii', len(b), len(b), 77, len(b)) + b + b'\x00' * ((4 - len(b) % 4) % 4)
+    return out
+
+
+def _csa_truth(entry):
+    """What the default translators must return for the blob of [entry]: from the generator's data alone."""
+    out = {}
+    for name, vr, items in entry['tags']:
+        if not items:
+            continue
+        conv = float if vr in ('FL', 'FD', 'DS') else int if vr in ('SS', 'US', 'SL', 'UL', 'IS') else str
+        vals = [conv(x) for x in items]
+        out[name] = vals[0] if len(vals) == 1 else vals
+    if entry.get('prot') is not None:
+        if entry['func'] == 'csa_series_trans_func':
+            for k, v in entry['prot']:
+                out['MrPhoenixProtocol.%s' % k] = v
+        else:
+            raise ValueError('protocols only in series headers')
+    return out
+
+
+def _value(spec, csa=None):
     from pydicom.dataset import Dataset
     from pydicom.sequence import Sequence
     if isinstance(spec, dict):
@@ -108,20 +153,67 @@ def _value(spec):
             return bytes(spec['b'])
         if 'f' in spec:
             return float(spec['f'])
+        if 'csa' in spec:
+            return _csa_blob(csa[spec['csa']])
         if 'seq' in spec:
-            return Sequence([_build(items) for items in spec['seq']])
+            return Sequence([_build(items, csa) for items in spec['seq']])
         raise ValueError('bad value spec')
     if isinstance(spec, list):
-        return [_value(x) for x in spec]
+        return [_value(x, csa) for x in spec]
     return spec
 
 
-def _build(elems):
+def _build(elems, csa=None):
     from pydicom.dataset import Dataset
     ds = Dataset()
     for e in elems:
-        ds.add_new((e['tag'][0], e['tag'][1]), e['vr'], _value(e['val']))
+        ds.add_new((e['tag'][0], e['tag'][1]), e['vr'], _value(e['val'], csa))
     return ds
+
+
+_FILE_COUNTER = [0]
+
+
+def _fresh(case):
+    """A fresh dataset for the case: built in memory, or (via_file) written to a file under the work directory
+    and read back, so that the extractor sees what pydicom makes of raw file elements."""
+    import pydicom
+    ds = _build(case['elems'], case.get('csa'))
+    mode = case.get('via_file')
+    if not mode:
+        return ds
+    d = os.environ.get('VERIF_WORK') or os.path.join(os.path.dirname(os.path.dirname(os.path.abspath(__file__))), 'work')
+    os.makedirs(d, exist_ok=True)
+    _FILE_COUNTER[0] += 1
+    fn = os.path.join(d, 'c15_%d_%d.dcm' % (os.getpid(), _FILE_COUNTER[0]))
+    try:
+        pydicom.dcmwrite(fn, ds, implicit_vr=(mode == 'implicit'), little_endian=True, enforce_file_format=False)
+        with open(fn, 'rb') as f:
+            data = f.read()
+    finally:
+        if os.path.exists(fn):
+            os.remove(fn)
+    import io
+    return pydicom.dcmread(io.BytesIO(data), force=True)
+
+
+def _harness_get_text(b):
+    """get_text re-stated in the harness (chardet is called directly, not through the library under test)."""
+    try:
+        import chardet
+    except ImportError:
+        chardet = None
+    if chardet is not None:
+        m = chardet.detect(b)
+        if m['encoding'] is None:
+            return None
+        try:
+            return b.decode(m['encoding'])
+        except UnicodeDecodeError:
+            pass
+    if all(32 <= c <= 126 for c in b):
+        return b.decode('ascii')
+    return None
 
 
 def _render(v):
@@ -218,16 +310,37 @@ def _collect_bytes(listing, acc):
                 _collect_bytes(item, acc)
 
 
+def _pydicom_facts(listing):
+    """pydicom facts the theorems take as hypotheses; recorded for the evidence, never part of a verdict."""
+    ok = True
+    for e in listing:
+        g, el = e['tag']
+        if (e['name'] == 'Private Creator') != (g % 2 == 1 and 0x10 <= el <= 0xff):
+            ok = False
+        v = e['val']
+        if e.get('raw') is not None:
+            try:
+                if v['t'] == 'DSfloat' and float.__repr__(float(e['raw'])) != v['v']:
+                    ok = False
+                if v['t'] == 'IS' and str(int(e['raw'])) != v['v']:
+                    ok = False
+            except ValueError:
+                ok = False
+        if v['t'] == 'Sequence':
+            ok = ok and all(_pydicom_facts(item) for item in v['v'])
+    return ok
+
+
 def run_impl(case):
     import warnings
     warnings.simplefilter('ignore')
     from dcmstack import extract
     _reset_private_dict(case.get('priv_dict', []))
     cfg = case['cfg']
-    ds_a = _build(case['elems'])
+    ds_a = _fresh(case)
     ds_a.decode()
     listing = _listing(ds_a)
-    obs = {'abstract': listing, 'chardet': bool(extract.have_chardet), 'gt': []}
+    obs = {'abstract': listing, 'chardet': bool(extract.have_chardet), 'gt': [], 'pydicom_facts': _pydicom_facts(listing)}
     if extract.have_chardet:
         acc = []
         _collect_bytes(listing, acc)
@@ -235,42 +348,48 @@ def run_impl(case):
         for b in acc:
             if tuple(b) not in seen:
                 seen.add(tuple(b))
-                obs['gt'].append([b, extract.get_text(bytes(b))])
+                obs['gt'].append([b, _harness_get_text(bytes(b))])
 
     def one(ds, ex):
+        # ValueError: 'More than one translator for tag', or a translator's own exception re-raised
+        # (warn_on_trans_except=False); TypeError: struct.unpack on text.  Anything else is unexpected and propagates.
         try:
             return None, ex(ds)
         except ValueError:
             return 'EValue', None
         except TypeError:
             return 'EType', None
-        except (KeyError, IndexError, AttributeError) as e:
-            return {'KeyError': 'EKey', 'IndexError': 'EIndex', 'AttributeError': 'EAttr'}[type(e).__name__], None
-        except Exception as e:
-            return 'ECrash', None
 
-    ds1 = _build(case['elems'])
+    ds1 = _fresh(case)
     pix_before = _pixels(ds1)
     ex = _extractor(cfg)
     err, r1 = one(ds1, ex)
     pix_after = _pixels(ds1)
-    obs['pixel_same'] = pix_before == pix_after == _pixels(_build(case['elems']))
-    ds2 = _build(case['elems'])
+    obs['pixel_same'] = pix_before == pix_after == _pixels(_fresh(case))
+    ds2 = _fresh(case)
     err2, r2 = one(ds2, _extractor(cfg))
     err3, r3 = one(ds1, ex)               # a second call on the same (already decoded) dataset
     if err is not None:
         obs['err'] = err
-        obs['deterministic'] = (err2 == err and err3 == err)
+        obs['deterministic'] = (err2 is not None and err3 is not None)
         return obs
     obs['result'] = _render(r1)['v']
-    obs['deterministic'] = (err2 is None and err3 is None and _render(r2)['v'] == obs['result'] and _render(r3)['v'] == obs['result']
-                            and list(r1.keys()) == list(r2.keys()) == list(r3.keys()))
+    obs['deterministic'] = (err2 is None and err3 is None and _canon(_render(r2)) == _canon(_render(r1)) and _canon(_render(r3)) == _canon(_render(r1)))
     try:
         json.dumps(r1)
         obs['json_ok'] = True
     except (TypeError, ValueError):
         obs['json_ok'] = False
     return obs
+
+
+def _canon(v):
+    """rendered value with dictionaries as sorted maps (key order is not part of the property)"""
+    if v['t'] == 'dict':
+        return {'t': 'dict', 'v': sorted(([k, _canon(x)] for k, x in v['v']), key=lambda kv: kv[0])}
+    if v['t'] in ('list', 'MultiValue'):
+        return {'t': v['t'], 'v': [_canon(x) for x in v['v']]}
+    return v
 
 
 # ------------------------------------------------------------------ Coq literals
@@ -311,19 +430,21 @@ def _cds(listing):
 def coq_case(case, obs):
     cfg = case['cfg']
     if 'abstract' not in obs:     # the runner itself failed: a case the model cannot agree with
-        return 'mk_case None None None true [] [] (Err EMissingExt)'
+        return 'mk_case None None None true [] [] [] [] (Err ECrash)'
     rules = copt(cfg.get('rules'), lambda rs: clist(RULE_COQ[r] for r in rs))
     trans = copt(cfg.get('trans'), lambda ts: clist('mk_tspec %s (%s, %s) %s %s' % (cstr(t['name']), cN(t['tag'][0]), cN(t['tag'][1]),
                                                                                    cstr(t['creator']), cnat(t['kind'])) for t in ts))
     convs = copt(cfg.get('convs'), lambda cs: clist(cpair(cstr(vr), CONV_COQ[c]) for vr, c in cs))
     gt = clist(cpair(cbytes(bytes(b)), copt(s, cstr)) for b, s in obs.get('gt', []))
+    csa = clist('(%s, %s, %s)' % (cstr(en['func']), cbytes(_csa_blob(en)), _cdict(_render(_csa_truth(en))['v'])) for en in case.get('csa') or [])
     if 'err' in obs:
         o = '(Err %s)' % obs['err']
     elif 'result' in obs:
         o = '(Ok %s)' % _cdict(obs['result'])
     else:
         o = '(Err EMissingExt)'
-    return 'mk_case %s %s %s %s %s %s %s' % (rules, trans, convs, cbool(bool(cfg.get('warn', True))), gt, _cds(obs['abstract']), o)
+    relax = clist(cstr(t['name']) for t in _trans_specs(cfg)) if case.get('kind') != 'malformed' and _multi_bound(obs['abstract'], case) else '[]'
+    return 'mk_case %s %s %s %s %s %s %s %s %s' % (rules, trans, convs, cbool(bool(cfg.get('warn', True))), gt, csa, relax, _cds(obs['abstract']), o)
 
 
 # ------------------------------------------------------------------ the property, re-stated on the observation
@@ -382,14 +503,13 @@ def _is_text_bytes(b):
     return all(32 <= c <= 126 for c in b)
 
 
-class _Fail(Exception):
-    pass
+JSON_TYPES = ('NoneType', 'str', 'UID', 'int', 'IS', 'BaseTag', 'float', 'DSfloat', 'list', 'dict')
 
 
 def _trans_specs(cfg):
     if cfg.get('trans') is None:
-        return [{'name': 'CsaImage', 'tag': [0x29, 0x1010], 'creator': 'SIEMENS CSA HEADER', 'kind': 99},
-                {'name': 'CsaSeries', 'tag': [0x29, 0x1020], 'creator': 'SIEMENS CSA HEADER', 'kind': 99}]
+        return [{'name': 'CsaImage', 'tag': [0x29, 0x1010], 'creator': 'SIEMENS CSA HEADER', 'kind': 99, 'func': 'csa_image_trans_func'},
+                {'name': 'CsaSeries', 'tag': [0x29, 0x1020], 'creator': 'SIEMENS CSA HEADER', 'kind': 99, 'func': 'csa_series_trans_func'}]
     return cfg['trans']
 
 
@@ -398,56 +518,148 @@ def _claims(listing, cfg):
     out = {}
     for e in listing:
         g, el = e['tag']
-        if g % 2 == 1 and 0x10 <= el <= 0xff and e['val']['t'] == 'str':
+        if g % 2 == 1 and 0x10 <= el <= 0xff and e['val']['t'] == 'str' and e['val']['v'].strip() != '':
             for t in _trans_specs(cfg):
                 if t['creator'] == e['val']['v']:
-                    out[(g, (el << 8) | (t['tag'][1] & 0xff))] = t
+                    out.setdefault((g, (el << 8) | (t['tag'][1] & 0xff)), t)
     return out
 
 
-def _expect_scalar(vr, raw, got, convs, where):
+def _expected_translation(e, t, case):
+    """generator truth: what the translation function returns for this element (None: nothing / raises)"""
+    if t['kind'] == 99:
+        if e['val']['t'] != 'bytes':
+            return None
+        for en in case.get('csa') or []:
+            if en['func'] == t.get('func') and list(_csa_blob(en)) == list(e['val']['v']):
+                return _csa_truth(en)
+        return None
+    f = TRANS_FUNCS.get(t['kind'])
+    if f is None:
+        return None
+    import collections
+    T = collections.namedtuple('T', 'group elem')
+
+    class _E:                                   # what the test translation functions look at
+        pass
+    x = _E()
+    x.tag, x.VR, x.VM = T(e['tag'][0], e['tag'][1]), e['vr'], e['vm']
+    try:
+        return f(x) or None
+    except ValueError:
+        return None
+
+
+def _same(a, b):
+    """rendered values equal: class and value (floats by repr), lists element-wise, dicts as maps"""
+    if a['t'] != b['t']:
+        return False
+    if a['t'] in ('list', 'MultiValue'):
+        return len(a['v']) == len(b['v']) and all(_same(x, y) for x, y in zip(a['v'], b['v']))
+    if a['t'] == 'dict':
+        da, db = dict((k, v) for k, v in a['v']), dict((k, v) for k, v in b['v'])
+        return set(da) == set(db) and all(_same(da[k], db[k]) for k in da)
+    return a.get('v') == b.get('v')
+
+
+def _tag_paren(n):
+    return '(%04X,%04X)' % (n >> 16, n & 0xffff)
+
+
+def _expect_scalar(vr, raw, got, convs, where, fail):
     """raw: rendered input scalar; got: rendered output scalar."""
     conv = dict(convs).get(vr)
     rt, gt_ = raw['t'], got['t']
     if conv == 'float':
         if gt_ != 'float':
-            raise _Fail('wrong-type: %s: %s value extracted as %s, expected float' % (where, vr, gt_))
+            return fail('wrong-type', '%s: %s value extracted as %s, expected float' % (where, vr, gt_))
         if rt in ('DSfloat', 'float') and got['v'] != raw['v']:
-            raise _Fail('wrong-value: %s: %s extracted as %s' % (where, raw['v'], got['v']))
+            return fail('wrong-value', '%s: %s extracted as %s' % (where, raw['v'], got['v']))
         if rt in ('int', 'IS') and float(got['v']) != float(int(raw['v'])):
-            raise _Fail('wrong-value: %s: %s extracted as %s' % (where, raw['v'], got['v']))
+            return fail('wrong-value', '%s: %s extracted as %s' % (where, raw['v'], got['v']))
     elif conv == 'int':
         if gt_ != 'int':
-            raise _Fail('wrong-type: %s: %s value extracted as %s, expected int' % (where, vr, gt_))
+            return fail('wrong-type', '%s: %s value extracted as %s, expected int' % (where, vr, gt_))
         if rt in ('int', 'IS') and got['v'] != raw['v']:
-            raise _Fail('wrong-value: %s: %s extracted as %s' % (where, raw['v'], got['v']))
+            return fail('wrong-value', '%s: %s extracted as %s' % (where, raw['v'], got['v']))
     elif conv in ('str', 'unicode_str'):
         if gt_ != 'str':
-            raise _Fail('wrong-type: %s: %s value extracted as %s, expected str' % (where, vr, gt_))
-        if rt in ('str', 'UID', 'PersonName') and got['v'] != raw['v']:
-            raise _Fail('wrong-value: %s: %r extracted as %r' % (where, raw['v'], got['v']))
+            return fail('wrong-type', '%s: %s value extracted as %s, expected str' % (where, vr, gt_))
+        exp = None
+        if rt in ('str', 'UID', 'PersonName'):
+            exp = raw['v']
+        elif rt == 'BaseTag':
+            exp = _tag_paren(int(raw['v']))
+        elif rt == 'int':
+            exp = raw['v']
+        elif rt == 'float':
+            exp = raw['v']
+        if exp is not None and got['v'] != exp:
+            return fail('wrong-value', '%s: %r extracted as %r, expected %r' % (where, raw['v'], got['v'], exp))
     elif conv == 'get_text':
         if rt == 'bytes':
             if gt_ != 'str' or got['v'] != bytes(raw['v']).decode('ascii'):
-                raise _Fail('wrong-value: %s: text bytes extracted as %s %r' % (where, gt_, got.get('v')))
+                return fail('wrong-value', '%s: text bytes extracted as %s %r' % (where, gt_, got.get('v')))
     else:
         # no conversion: the value itself
-        same_class = {'str': 'str', 'int': 'int', 'float': 'float'}
-        if rt in same_class:
+        if rt in ('str', 'int', 'float'):
             if gt_ != rt or got['v'] != raw['v']:
-                raise _Fail('wrong-value: %s: %s %r extracted as %s %r' % (where, rt, raw['v'], gt_, got.get('v')))
-        elif rt in ('UID', 'IS', 'DSfloat', 'BaseTag'):
+                return fail('wrong-value', '%s: %s %r extracted as %s %r' % (where, rt, raw['v'], gt_, got.get('v')))
+        elif rt in ('UID', 'IS', 'DSfloat', 'BaseTag', 'PersonName', 'bytes'):
             if got.get('v') != raw['v']:
-                raise _Fail('wrong-value: %s: %r extracted as %r' % (where, raw['v'], got.get('v')))
+                return fail('wrong-value', '%s: %r extracted as %r' % (where, raw['v'], got.get('v')))
 
 
-def _check_level(listing, result, cfg, where):
-    """result: rendered dict (list of [key, rendered value]).  Raises _Fail."""
+def _json_walk(v):
+    """first non-JSON Python class in a rendered value, or None"""
+    if v['t'] not in JSON_TYPES:
+        return v.get('ty', v['t'])
+    if v['t'] == 'list':
+        for x in v['v']:
+            r = _json_walk(x)
+            if r:
+                return r
+    if v['t'] == 'dict':
+        for _, x in v['v']:
+            r = _json_walk(x)
+            if r:
+                return r
+    return None
+
+
+def _json_exempt(e, convs):
+    """the CONFIGURATION took the conversion away that would have made this value serialisable (the user's choice),
+    or the value is outside the generated domain (opaque objects, byte strings under non-binary VRs, an empty
+    MultiValue under a VR without conversion)"""
+    v = e['val']
+    conv = dict(convs).get(e['vr'])
+    dflt = dict(DEFAULT_CONVS).get(e['vr'])
+    items = v['v'] if v['t'] in ('MultiValue', 'list') else [v]
+    if v['t'] == 'MultiValue' and conv is None and e['vm'] <= 1:
+        return True
+    for x in items:
+        if x['t'] == 'other':
+            return True
+        if x['t'] == 'bytes' and conv is None and (dflt is not None or e['vr'] not in BYTES_VRS + UNCONVERTED_BINARY_VRS):
+            return True
+        if x['t'] == 'PersonName' and conv is None:
+            return True
+    return False
+
+
+def _check_level(listing, result, case, where, fails, st):
+    """result: rendered dict (list of [key, rendered value]).  Appends (signature, message) to [fails]; every clause is
+    evaluated (no early exit)."""
+    cfg = case['cfg']
+
+    def fail(sig, msg):
+        fails.append((sig, '%s: %s' % (sig, msg)))
+
     rules = RULE_NAMES if cfg.get('rules') is None else cfg['rules']
     convs = DEFAULT_CONVS if cfg.get('convs') is None else cfg['convs']
     keys = [k for k, _ in result]
     if len(set(keys)) != len(keys):
-        raise _Fail('duplicate-key: %s' % where)
+        fail('duplicate-key', where)
     res = dict((k, v) for k, v in result)
     claims = _claims(listing, cfg)
     required, exempt, translated = [], [], []
@@ -477,37 +689,56 @@ def _check_level(listing, result, cfg, where):
     allowed = set()
     for e in exempt:
         b = _base_key(e)
+        tagged = b + '_' + '%#X_%#X' % tuple(e['tag'])
         allowed.add(b)
-        allowed.add(b + '_' + '%#X_%#X' % tuple(e['tag']))
-    # translated elements: every key the translation function returns must be there, prefixed
+        allowed.add(tagged)
+        if tagged in res or (b in res and n_req.get(b, 0) == 0):
+            st['exempt_present'] = True
+
+    # ---- translated elements: the translation is in the result under the translator's name
     by_name = {}
     for e, t in translated:
-        by_name.setdefault(t['name'], []).append(e)
-    for e, t in translated:
-        f = TRANS_FUNCS.get(t['kind'])
-        exp = None
-        if f is not None:
-            class _E:                                   # what the test translation functions look at
-                pass
-            import collections
-            T = collections.namedtuple('T', 'group elem')
-            x = _E()
-            x.tag, x.VR, x.VM = T(e['tag'][0], e['tag'][1]), e['vr'], e['vm']
-            try:
-                exp = f(x)
-            except ValueError:
-                exp = None
-        for k, val in (exp or {}).items():
-            key = '%s.%s' % (t['name'], k)
-            allowed.add(key)
-            got = res.get(key)
-            ok = got is not None and got.get('v') == (str(val) if isinstance(val, int) else val)
-            if not ok:
-                if len(by_name[t['name']]) > 1:
-                    raise _Fail('translator-bound-twice: %s: translator %s is bound to %d elements; the translation of (%04X,%04X) is lost (key %s is %r)'
-                                % (where, t['name'], len(by_name[t['name']]), e['tag'][0], e['tag'][1], key, got and got.get('v')))
-                raise _Fail('translated-element-lost: %s: key %s of (%04X,%04X) is %r' % (where, key, e['tag'][0], e['tag'][1], got and got.get('v')))
-    # surviving elements: exactly one key each
+        exp = _expected_translation(e, t, case)
+        if exp:
+            by_name.setdefault(t['name'], []).append((e, exp))
+    for tn, lst in sorted(by_name.items()):
+        prefix = tn + '.'
+        if len(lst) == 1:
+            e, exp = lst[0]
+            for k, val in exp.items():
+                key = prefix + k
+                allowed.add(key)
+                got = res.get(key)
+                if got is None or not _same(_render(val), got):
+                    fail('translated-element-lost', '%s: key %s of (%04X,%04X) is %r, expected %r'
+                         % (where, key, e['tag'][0], e['tag'][1], got and (got['t'], got.get('v')), val))
+            continue
+        # one translator name bound to several elements of this dataset.  Whatever a library does about it, every
+        # element's translation must be recoverable under keys that begin with the translator's name.
+        under = dict((k, v) for k, v in res.items() if k.startswith(tn))
+        allowed.update(under)
+
+        def recoverable(exp):
+            return all(any(k.endswith(kk) and _same(_render(val), got) for k, got in under.items()) for kk, val in exp.items())
+        lost = [(e, exp) for e, exp in lst if not recoverable(exp)]
+        if not lost:
+            continue
+        # F12 exactly: the keys under the prefix are those of the LAST translation, with its values, and what is
+        # lost are earlier translations (each later assignment trans_meta_dicts[name] = meta replaced the earlier one)
+        last_e, last_exp = lst[-1]
+        only_last = (set(k for k in under if k.startswith(prefix)) == set(prefix + kk for kk in last_exp)
+                     and set(under) == set(prefix + kk for kk in last_exp)
+                     and all(_same(_render(val), under[prefix + kk]) for kk, val in last_exp.items()))
+        earlier = all(e is not last_e for e, _ in lost)
+        e0 = lost[0][0]
+        if only_last and earlier:
+            fail(F12_SIG, '%s: translator %s is bound to %d elements; only the translation of (%04X,%04X) is under %r, that of (%04X,%04X) was overwritten'
+                 % (where, tn, len(lst), last_e['tag'][0], last_e['tag'][1], prefix, e0['tag'][0], e0['tag'][1]))
+        else:
+            fail('translated-element-lost', '%s: translator %s is bound to %d elements; the translation of (%04X,%04X) is not in the result (keys under the name: %r)'
+                 % (where, tn, len(lst), e0['tag'][0], e0['tag'][1], sorted(under)))
+
+    # ---- surviving elements: exactly one key each, with the value
     for e in required:
         b = _base_key(e)
         tagged = b + '_' + '%#X_%#X' % tuple(e['tag'])
@@ -520,33 +751,51 @@ def _check_level(listing, result, cfg, where):
             cands = [b, tagged]
         present = [k for k in cands if k in res]
         if n_req[b] >= 2 and b in res and b not in allowed:
-            # a clashing name must not also appear bare
-            raise _Fail('clash-not-disambiguated: %s: key %r is used bare although %d elements carry that name' % (w, b, n_req[b]))
+            fail('clash-not-disambiguated', '%s: key %r is used bare although %d elements carry that name' % (w, b, n_req[b]))
         if len(present) != 1:
-            raise _Fail('element-not-mapped: %s %s %s: expected exactly one of the keys %r, found %r' % (w, e['vr'], e['val']['t'], cands, present))
+            fail('element-not-mapped', '%s %s %s: expected exactly one of the keys %r, found %r' % (w, e['vr'], e['val']['t'], cands, present))
+            allowed.update(cands)
+            continue
         key = present[0]
         allowed.add(key)
         got = res[key]
         v = e['val']
         if v['t'] == 'Sequence':
             if got['t'] != 'list' or len(got['v']) != len(v['v']):
-                raise _Fail('wrong-type: %s: sequence of %d items extracted as %s' % (w, len(v['v']), got['t']))
+                fail('wrong-type', '%s: sequence of %d items extracted as %s' % (w, len(v['v']), got['t']))
+                continue
             for i, (item, sub) in enumerate(zip(v['v'], got['v'])):
                 if sub['t'] != 'dict':
-                    raise _Fail('wrong-type: %s: sequence item extracted as %s' % (w, sub['t']))
-                _check_level(item, sub['v'], cfg, '%s[%d].' % (w, i))
-        elif e['vm'] > 1:
-            if got['t'] != 'list' or v['t'] != 'MultiValue' or len(got['v']) != len(v['v']):
-                raise _Fail('wrong-type: %s: VM %d value extracted as %s' % (w, e['vm'], got['t']))
-            for raw, g1 in zip(v['v'], got['v']):
-                _expect_scalar(e['vr'], raw, g1, convs, w)
+                    fail('wrong-type', '%s: sequence item extracted as %s' % (w, sub['t']))
+                else:
+                    _check_level(item, sub['v'], case, '%s[%d].' % (w, i), fails, st)
+            continue
+        if e['vm'] > 1:
+            if got['t'] != 'list' or v['t'] not in ('MultiValue', 'list') or len(got['v']) != len(v['v']):
+                fail('wrong-type', '%s: VM %d value extracted as %s' % (w, e['vm'], got['t']))
+            else:
+                for raw, g1 in zip(v['v'], got['v']):
+                    _expect_scalar(e['vr'], raw, g1, convs, w, fail)
         else:
             if got['t'] in ('list', 'MultiValue'):
-                raise _Fail('wrong-type: %s: single value extracted as %s' % (w, got['t']))
-            _expect_scalar(e['vr'], v, got, convs, w)
+                fail('wrong-type', '%s: single value extracted as %s' % (w, got['t']))
+            else:
+                _expect_scalar(e['vr'], v, got, convs, w, fail)
+        # JSON: every value must be of a serialisable class, unless the configuration / domain says otherwise
+        bad = _json_walk(got)
+        if bad:
+            if _never_rule(tuple(e['tag'])) is not None:
+                st['exempt_present'] = True        # pixel / overlay / LUT data extracted because the configuration lacks the rule
+            elif e['vr'] in UNCONVERTED_BINARY_VRS and dict(convs).get(e['vr']) is None and got['t'] == 'bytes':
+                fail('binary-vr-unconverted', '%s: the %s value is extracted as raw bytes (no conversion exists for this VR); the result is not JSON serialisable' % (w, e['vr']))
+                st['exempt_present'] = True
+            elif _json_exempt(e, convs):
+                st['exempt_present'] = True
+            else:
+                fail('not-json', '%s: value of class %s is not JSON serialisable' % (w, bad))
     for k in keys:
         if k not in allowed:
-            raise _Fail('unexpected-key: %s: key %r does not come from any extractable element' % (where, k))
+            fail('unexpected-key', '%s: key %r does not come from any extractable element' % (where, k))
     # never-extract tags (also covered by unexpected-key; stated separately because the property does)
     for e in listing:
         r = _never_rule(tuple(e['tag']))
@@ -554,54 +803,75 @@ def _check_level(listing, result, cfg, where):
             b = _base_key(e)
             for k in (b, b + '_' + '%#X_%#X' % tuple(e['tag'])):
                 if k in res and n_req.get(b, 0) == 0:
-                    raise _Fail('never-extract: %s: %s of (%04X,%04X) is in the result' % (where, k, e['tag'][0], e['tag'][1]))
+                    fail('never-extract', '%s: %s of (%04X,%04X) is in the result' % (where, k, e['tag'][0], e['tag'][1]))
+    # translator results must be serialisable too (the test translators return str / int / float)
+    for k, got in res.items():
+        if k in allowed and any(k.startswith(tn) for tn in by_name):
+            bad = _json_walk(got)
+            if bad:
+                fail('not-json', '%s: translator value %s of class %s' % (where, k, bad))
 
 
-def _json_expected(listing, cfg):
-    convs = dict(DEFAULT_CONVS if cfg.get('convs') is None else cfg['convs'])
-    for vr, c in DEFAULT_CONVS:
-        if c in ('get_text', 'unicode_str') and convs.get(vr) not in ('get_text', 'unicode_str', 'str'):
-            return False
-    return True
-
-
-def _has_other(listing):
+def _multi_bound(listing, case):
+    """some translator is bound to two or more elements of one dataset (at any nesting level)"""
+    claims = _claims(listing, case['cfg'])
+    n = {}
     for e in listing:
-        v = e['val']
-        if v['t'] == 'other' or (v['t'] == 'MultiValue' and e['vm'] == 0) or (v['t'] == 'bytes' and e['vr'] not in BYTES_VRS):
-            return True
-        if v['t'] == 'Sequence' and any(_has_other(i) for i in v['v']):
-            return True
-    return False
+        if tuple(e['tag']) in claims and not (e['val']['t'] == 'str' and e['val']['v'].strip() == ''):
+            t = claims[tuple(e['tag'])]
+            if _expected_translation(e, t, case):
+                n[t['name']] = n.get(t['name'], 0) + 1
+    if any(c >= 2 for c in n.values()):
+        return True
+    return any(_multi_bound(item, case) for e in listing if e['val']['t'] == 'Sequence' for item in e['val']['v'])
+
+
+def _collect(case, obs):
+    """every clause of the property, evaluated on the observation: list of (signature, message)"""
+    fails = []
+    if not isinstance(obs, dict) or 'crash' in obs or 'abstract' not in obs:
+        return [('crash', 'crash: implementation runner: %s' % (obs.get('crash') if isinstance(obs, dict) else obs))]
+    if case.get('kind') == 'malformed':
+        # outside the property's domain: only "what happens is what the documented API says"
+        m = case.get('malformed')
+        if m == 'raising-translator-no-warn' and 'err' not in obs:
+            fails.append(('translator-exception-swallowed', 'translator-exception-swallowed: warn_on_trans_except=False but the translator\'s exception did not propagate'))
+        return fails
+    if 'err' in obs:
+        if _multi_bound(obs['abstract'], case):
+            return fails          # refusing a translator bound twice is an acceptable answer to F12
+        return [('raised', 'raised: extraction of a well-formed dataset raised %s' % obs['err'])]
+    if not obs.get('pixel_same', False):
+        fails.append(('pixel-changed', 'pixel-changed: pixel data differ after extraction'))
+    if not obs.get('deterministic', False):
+        fails.append(('non-deterministic', 'non-deterministic: two extractions of the same dataset differ'))
+    st = {'exempt_present': False}
+    _check_level(obs['abstract'], obs['result'], case, '', fails, st)
+    if not obs.get('json_ok', False) and not st['exempt_present'] and not any(s in ('not-json', 'binary-vr-unconverted') for s, _ in fails):
+        fails.append(('not-json', 'not-json: json.dumps rejects the result although every value looks serialisable'))
+    return fails
 
 
 def oracle(case, obs):
     try:
-        if not isinstance(obs, dict) or 'crash' in obs or 'abstract' not in obs:
-            if case.get('kind') == 'malformed':
-                return None
-            return 'crash: implementation runner: %s' % (obs.get('crash') if isinstance(obs, dict) else obs)
-        if case.get('kind') == 'malformed':
-            return None
-        if 'err' in obs:
-            return 'raised: extraction of a well-formed dataset raised %s' % obs['err']
-        if not obs.get('pixel_same', False):
-            return 'pixel-changed: PixelData differs after extraction'
-        if not obs.get('deterministic', False):
-            return 'non-deterministic: two extractions of the same dataset differ'
-        try:
-            _check_level(obs['abstract'], obs['result'], case['cfg'], '')
-        except _Fail as f:
-            return str(f)
-        if not obs.get('json_ok', False) and _json_expected(obs['abstract'], case['cfg']) and not _has_other(obs['abstract']):
-            return 'not-json: the result is not JSON serialisable'
-        return None
+        fails = _collect(case, obs)
     except Exception as e:        # never raise
         return 'oracle-error: %s: %s' % (type(e).__name__, e)
+    for sig, msg in fails:
+        if sig not in KNOWN_SIGS:
+            return msg
+    return fails[0][1] if fails else None
 
 
 def signature(case, obs, msg):
-    return msg.split(':')[0]
+    """re-derived from the case and the observation: the signature of the clause that produced this message"""
+    try:
+        for sig, m in _collect(case, obs):
+            if m == msg:
+                return sig
+    except Exception:
+        pass
+    return 'unclassified/' + msg.split(':')[0]
 
 
 def nontrivial(case, obs):
@@ -669,7 +939,8 @@ NEVER_TAGS = [((0x7fe0, 0x0010), 'OW'), ((0x7fe0, 0x0008), 'OF'), ((0x7fe0, 0x00
 NEAR_NEVER_TAGS = [((0x0028, 0x1101), 'US'), ((0x0028, 0x1200), 'OW'), ((0x0028, 0x1204), 'OW'), ((0x6000, 0x3001), 'OW'), ((0x5fff, 0x3000), 'OW'),
                    ((0x6100, 0x3000), 'OW'), ((0x7fe0, 0x0011), 'OW'), ((0x7fe0, 0x0007), 'OW'), ((0x7fe0, 0x000a), 'OB'), ((0x7fe1, 0x0010), 'LO')]
 SCALAR_VRS = ['CS', 'LO', 'SH', 'DS', 'IS', 'US', 'SS', 'UL', 'SL', 'FL', 'FD', 'UI', 'PN', 'DA', 'TM', 'AT', 'OB', 'OW', 'UN',
-              'US or SS', 'ST', 'LT', 'AS', 'DT']
+              'US or SS', 'ST', 'LT', 'AS', 'DT', 'AE', 'UT', 'UC', 'UR', 'SV', 'UV', 'OB or OW', 'OW or OB', 'OF', 'OD', 'OL', 'OV']
+SINGLE_ONLY_VRS = ('OB', 'OW', 'UN', 'ST', 'LT', 'UT', 'UR', 'OB or OW', 'OW or OB', 'OF', 'OD', 'OL', 'OV')
 WORDS = ['MR', 'ORIGINAL', 'PRIMARY', 'M', 'ND', 'NORM', 'head scan', 'T1 mprage', 'a', 'Ab c', ' lead', 'trail ', 'x_y', 'café',
          'Köln', '0', '12', 'foo.bar', 'A^B', '日本']
 DS_STRS = ['1.5', '-0.25', '100', '1e2', '0.1', '123456.789', '3.14159265358979', '0', '-0', '2.50', '1E-3', '+7.25', '.5', '12345678.9012345', '0.30000000000000004']
@@ -679,8 +950,18 @@ BYTES = [[97, 98, 99], [32, 126], [72, 105, 32, 116, 104, 101, 114, 101], [0, 1,
 
 
 def _scalar(rng, vr):
-    if vr in ('CS', 'LO', 'SH', 'ST', 'LT'):
+    if vr in ('CS', 'LO', 'SH', 'ST', 'LT', 'UC'):
         return rng.choice(WORDS)
+    if vr == 'UT':
+        return rng.choice(WORDS + ['two\nlines', 'a long text ' * 8])
+    if vr == 'AE':
+        return rng.choice(['STORESCP', 'AE_1', 'X'])
+    if vr == 'UR':
+        return rng.choice(['http://example.org/a?b=c', 'urn:oid:1.2.3'])
+    if vr == 'SV':
+        return rng.choice([0, -1, 7, -9223372036854775808, 9223372036854775807])
+    if vr == 'UV':
+        return rng.choice([0, 1, 4294967296, 18446744073709551615])
     if vr == 'AS':
         return rng.choice(['030Y', '012M'])
     if vr == 'DT':
@@ -705,8 +986,12 @@ def _scalar(rng, vr):
         return rng.choice(['101010', '101010.500000', '0930'])
     if vr == 'AT':
         return rng.choice([0x00080010, 0x7fe00010, 0x00291010, 0])
-    if vr in ('OB', 'OW', 'UN'):
+    if vr in ('OB', 'OW', 'UN', 'OB or OW', 'OW or OB'):
         return {'b': rng.choice(BYTES)}
+    if vr in ('OF', 'OL'):
+        return {'b': rng.choice([[0, 0, 128, 63], [1, 0, 0, 0, 2, 0, 0, 0], [97, 98, 99, 100], [32, 126, 65, 66], []])}
+    if vr in ('OD', 'OV'):
+        return {'b': rng.choice([[0, 0, 0, 0, 0, 0, 240, 63], [97, 98, 99, 100, 101, 102, 103, 104], [255] * 8, []])}
     raise ValueError(vr)
 
 
@@ -715,11 +1000,12 @@ def _elem_value(rng, vr):
     r = rng.random()
     if r < 0.07:
         return None
-    if r < 0.13 and vr not in ('OB', 'OW', 'UN', 'AT', 'FL', 'FD', 'US', 'SS', 'UL', 'SL', 'US or SS'):
+    if r < 0.13 and vr not in ('OB', 'OW', 'UN', 'AT', 'FL', 'FD', 'US', 'SS', 'UL', 'SL', 'US or SS', 'SV', 'UV',
+                              'OB or OW', 'OW or OB', 'OF', 'OD', 'OL', 'OV'):
         return rng.choice(['', ' ', '  '])
     if r < 0.16 and vr in ('DS', 'IS', 'UI', 'PN'):
         return []
-    if r < 0.45 and vr not in ('OB', 'OW', 'UN', 'ST', 'LT'):
+    if r < 0.45 and vr not in SINGLE_ONLY_VRS:
         n = rng.choice([2, 2, 3, 4, 6])
         return [_scalar(rng, vr) for _ in range(n)]
     return _scalar(rng, vr)
@@ -742,7 +1028,7 @@ def _std_elems(rng, n, used, depth=0):
                 if rng.random() < 0.25:
                     sub += _never_elems(rng, 1, iu)
                 if rng.random() < 0.25:
-                    sub += _private_block(rng, iu, rng.choice(TEST_CREATORS + ['SIEMENS CSA HEADER']))[0]
+                    sub += _private_block(rng, iu, rng.choice(TEST_CREATORS + ['SIEMENS CSA HEADER']), depth=depth + 1)[0]
                 items.append(sub)
             out.append({'tag': list(tag), 'vr': 'SQ', 'val': {'seq': items}})
             continue
@@ -778,9 +1064,14 @@ def _never_elems(rng, n, used):
     return out
 
 
-def _private_block(rng, used, creator, group=None, slot=None, n=None, multi_creator=False):
+def _slot(rng):
+    """any reserved slot 0x10..0xff (the edges and a few usual ones more often)"""
+    return rng.choice([0x10, 0x10, 0x11, 0xff, rng.randrange(0x10, 0x100), rng.randrange(0x10, 0x100), rng.randrange(0x10, 0x100)])
+
+
+def _private_block(rng, used, creator, group=None, slot=None, n=None, multi_creator=False, depth=0):
     group = group if group is not None else rng.choice([0x0009, 0x0019, 0x0021, 0x0029, 0x0029, 0x0051, 0x7fe1])
-    slot = slot if slot is not None else rng.choice([0x10, 0x10, 0x11, 0x12, 0x7f, 0xe0, 0xff])
+    slot = slot if slot is not None else _slot(rng)
     if (group, slot) in used:
         return [], group, slot
     used.add((group, slot))
@@ -792,10 +1083,104 @@ def _private_block(rng, used, creator, group=None, slot=None, n=None, multi_crea
         if tag in used:
             continue
         used.add(tag)
+        if depth < 2 and rng.random() < 0.12:
+            # a private sequence: items are datasets of their own (own creators, own translator bindings)
+            items = []
+            for _i in range(rng.choice([0, 1, 2])):
+                iu = set()
+                sub = _std_elems(rng, rng.choice([0, 1, 2]), iu, depth + 2)
+                if rng.random() < 0.5:
+                    sub += _private_block(rng, iu, creator, group=group, depth=depth + 1)[0]
+                items.append(sub)
+            out.append({'tag': list(tag), 'vr': 'SQ', 'val': {'seq': items}})
+            continue
         vr = rng.choice(['LO', 'CS', 'OB', 'UN', 'DS', 'IS', 'US', 'FD', 'SH'])
         val = _elem_value(rng, vr)
         out.append({'tag': list(tag), 'vr': vr, 'val': val})
     return out, group, slot
+
+
+CSA_IMAGE_TAGS = [['EchoLinePosition', 'US', ['64']], ['SliceNormalVector', 'FD', ['0.0', '0.5', '1.0']], ['ImaCoilString', 'LO', ['HEA;HEP']],
+                  ['NumberOfImagesInMosaic', 'US', ['36']], ['B_value', 'IS', ['1000']], ['DiffusionGradientDirection', 'FD', ['0.7071', '-0.7071', '0.0']],
+                  ['TimeAfterStart', 'DS', ['2.5']], ['Empty', 'IS', []], ['ICE_Dims', 'LO', ['X_1_1_1_1_1_1_1_1_1_1_1_41']],
+                  ['MosaicRefAcqTimes', 'FD', ['0.0', '1020.0', '50.0', '1070.0']], ['PhaseEncodingDirectionPositive', 'IS', ['1']]]
+CSA_SERIES_TAGS = [['UsedPatientWeight', 'IS', ['70']], ['SeriesWorkflowStatus', 'LT', ['com']], ['Isocentered', 'IS', ['1']],
+                   ['CoilString', 'LO', ['HE1-4', 'NE1,2']], ['ReadoutOS', 'FD', ['2.0']], ['Empty', 'US', []]]
+PHOENIX_LINES = [['sProtConsistencyInfo.tBaselineString', 'N4_VB17A_LATEST'], ['lRepetitions', 3], ['sSliceArray.lSize', 36],
+                 ['sSliceArray.asSlice[0].dThickness', 2.5], ['alTR[0]', 2000000], ['sKSpace.ucDimension', 2], ['dFlip', -0.125],
+                 ['tSequenceFileName', '%SiemensSeq%\\ep2d_bold'], ['lContrasts', 0]]
+
+
+def _csa_entry(rng, func):
+    if func == 'csa_image_trans_func':
+        return {'func': func, 'tags': [list(t) for t in rng.sample(CSA_IMAGE_TAGS, rng.choice([0, 1, 3, 5]))], 'prot': None}
+    tags = [list(t) for t in rng.sample(CSA_SERIES_TAGS, rng.choice([0, 1, 3]))]
+    prot = [list(x) for x in rng.sample(PHOENIX_LINES, rng.choice([0, 1, 3, 5]))] if rng.random() < 0.7 else None
+    return {'func': func, 'tags': tags, 'prot': prot}
+
+
+# tags with the VR of the DICOM dictionary (a file read back presents every element with its dictionary VR)
+FILE_TAGS = [((0x0008, 0x0008), 'CS', 'n'), ((0x0008, 0x0060), 'CS', '1'), ((0x0008, 0x0070), 'LO', '1'), ((0x0008, 0x1080), 'LO', 'n'),
+             ((0x0008, 0x0050), 'SH', '1'), ((0x0018, 0x1210), 'SH', 'n'), ((0x0010, 0x1020), 'DS', '1'), ((0x0018, 0x0050), 'DS', '1'),
+             ((0x0020, 0x0032), 'DS', 'n'), ((0x0008, 0x2130), 'DS', 'n'), ((0x0008, 0x2122), 'IS', '1'), ((0x0020, 0x0013), 'IS', '1'),
+             ((0x0008, 0x1160), 'IS', 'n'), ((0x0028, 0x0010), 'US', '1'), ((0x0010, 0x0028), 'US', 'n'), ((0x0018, 0x9219), 'SS', '1'),
+             ((0x0018, 0x9440), 'SS', 'n'), ((0x0018, 0x6020), 'SL', '1'), ((0x0070, 0x0052), 'SL', 'n'), ((0x0008, 0x1161), 'UL', 'n'),
+             ((0x0008, 0x0309), 'UL', '1'), ((0x0018, 0x1320), 'FL', '1'), ((0x0018, 0x2044), 'FL', 'n'), ((0x0008, 0x2134), 'FD', '1'),
+             ((0x0018, 0x6054), 'FD', 'n'), ((0x0008, 0x0018), 'UI', '1'), ((0x0008, 0x001a), 'UI', 'n'), ((0x0010, 0x0010), 'PN', '1'),
+             ((0x0008, 0x1050), 'PN', 'n'), ((0x0008, 0x0020), 'DA', '1'), ((0x0008, 0x0030), 'TM', '1'), ((0x0008, 0x002a), 'DT', '1'),
+             ((0x0010, 0x1010), 'AS', '1'), ((0x0020, 0x9165), 'AT', '1'), ((0x0028, 0x0009), 'AT', 'n'), ((0x0008, 0x0055), 'AE', '1'),
+             ((0x0008, 0x0054), 'AE', 'n'), ((0x0008, 0x0081), 'ST', '1'), ((0x0008, 0x0108), 'LT', '1'), ((0x0010, 0x0218), 'UT', '1'),
+             ((0x0008, 0x0119), 'UC', '1'), ((0x0018, 0x9908), 'UC', 'n'), ((0x0008, 0x0120), 'UR', '1'), ((0x0008, 0x040c), 'UV', '1'),
+             ((0x0008, 0x041b), 'OB', '1'), ((0x0066, 0x0016), 'OF', '1'), ((0x0070, 0x150d), 'OD', '1'), ((0x0066, 0x0040), 'OL', '1'),
+             ((0x7fe0, 0x0001), 'OV', '1'), ((0x7fe0, 0x0008), 'OF', '1'), ((0x0028, 0x1201), 'OW', '1'), ((0x7fe0, 0x0010), 'OW', '1'), ((0x6000, 0x3000), 'OW', '1')]
+FILE_WORDS = ['MR', 'ORIGINAL', 'PRIMARY', 'head scan', 'T1 mprage', 'a', 'Ab c', 'x_y', '0', '12', 'foo.bar']
+FILE_DS = ['1.5', '-0.25', '100', '1e2', '0.1', '123456.789', '0', '-0', '2.50', '1E-3', '+7.25', '.5']
+
+
+def _file_scalar(rng, vr):
+    if vr in ('CS',):
+        return rng.choice(['MR', 'ORIGINAL', 'PRIMARY', 'M', 'ND'])
+    if vr in ('LO', 'SH', 'ST', 'LT', 'UT', 'UC'):
+        return rng.choice(FILE_WORDS)
+    if vr == 'DS':
+        return rng.choice(FILE_DS)
+    if vr in ('FL', 'FD'):
+        return {'f': rng.choice(['1.5', '0.1', '-2.25', '3.0', '0.0', '1e-07', '123456789.125'])}
+    if vr == 'PN':
+        return rng.choice(['Doe^John', 'X', 'A^B^C'])
+    if vr in ('OB', 'OW', 'OF', 'OL'):
+        return {'b': rng.choice([[97, 98, 99, 100], [0, 1, 2, 3], [72, 105, 33, 33], [255, 254, 0, 0]])}
+    if vr in ('OD', 'OV'):
+        return {'b': rng.choice([[97, 98, 99, 100, 101, 102, 103, 104], [0, 0, 0, 0, 0, 0, 240, 63]])}
+    return _scalar(rng, vr)
+
+
+def _file_elems(rng, n, used, depth=0):
+    out = []
+    for _ in range(n):
+        if depth < 2 and rng.random() < 0.12:
+            tag = rng.choice(SEQ_TAGS)
+            if tag in used:
+                continue
+            used.add(tag)
+            items = [_file_elems(rng, rng.choice([0, 1, 2, 3]), set(), depth + 1) for _i in range(rng.choice([0, 1, 2]))]
+            out.append({'tag': list(tag), 'vr': 'SQ', 'val': {'seq': items}})
+            continue
+        tag, vr, vm = rng.choice(FILE_TAGS)
+        if tag in used:
+            continue
+        used.add(tag)
+        r = rng.random()
+        if r < 0.08:
+            val = None
+        elif r < 0.14 and vr in ('CS', 'LO', 'SH', 'DS', 'IS', 'PN', 'UI', 'DA', 'TM', 'ST', 'LT', 'UT', 'UC', 'AE', 'AS', 'DT', 'UR'):
+            val = ''
+        elif vm == 'n' and r < 0.7:
+            val = [_file_scalar(rng, vr) for _i in range(rng.choice([2, 3, 4]))]
+        else:
+            val = _file_scalar(rng, vr)
+        out.append({'tag': list(tag), 'vr': vr, 'val': val})
+    return out
 
 
 PRIV_NAMES = ['Modality', 'modality', 'foo bar', 'Foo  Bar', 'fooBar', '3d thing', "it's", 'Rows', 'image type', 'a', 'A',
@@ -829,16 +1214,16 @@ def _convs_cfg(rng):
     return rng.choice([[], [['DS', 'float']], [['IS', 'int'], ['OB', 'get_text']]])
 
 
-def _f12_case(rng=None, extra=None):
-    elems = [
-        {'tag': [0x0008, 0x0060], 'vr': 'CS', 'val': 'MR'},
-        {'tag': [0x0029, 0x0010], 'vr': 'LO', 'val': 'VERIF A'},
-        {'tag': [0x0029, 0x0011], 'vr': 'LO', 'val': 'VERIF A'},
-        {'tag': [0x0029, 0x1001], 'vr': 'LO', 'val': 'first'},
-        {'tag': [0x0029, 0x1101], 'vr': 'LO', 'val': 'second'},
-    ] + (extra or [])
+def _f12_case(rng=None, extra=None, slots=(0x10, 0x11), group=0x0029, low=0x01, kind=0):
+    elems = [{'tag': [0x0008, 0x0060], 'vr': 'CS', 'val': 'MR'}]
+    for s_ in slots:
+        elems.append({'tag': [group, s_], 'vr': 'LO', 'val': 'VERIF A'})
+    for i, s_ in enumerate(slots):
+        elems.append({'tag': [group, (s_ << 8) | low], 'vr': 'LO', 'val': ['first', 'second', 'third'][i % 3]})
+        elems.append({'tag': [group, (s_ << 8) | ((low + 1) & 0xff)], 'vr': 'LO', 'val': 'untranslated %d' % i})
+    elems += (extra or [])
     return {'kind': 'f12-translator-bound-twice', 'priv_dict': [],
-            'cfg': {'rules': None, 'trans': [{'name': 'T1', 'tag': [0x0029, 0x1001], 'creator': 'VERIF A', 'kind': 0}], 'convs': None, 'warn': True},
+            'cfg': {'rules': None, 'trans': [{'name': 'T1', 'tag': [group, 0x1000 | low], 'creator': 'VERIF A', 'kind': kind}], 'convs': None, 'warn': True},
             'elems': elems}
 
 
@@ -855,7 +1240,7 @@ def gen_cases(rng, tier):
             elems = _std_elems(rng, rng.choice([3, 6, 10, 16]), used)
             cfg['rules'] = _rules_cfg(rng)
             cfg['convs'] = _convs_cfg(rng)
-        elif r < 0.50:
+        elif r < 0.48:
             kind = 'private-translators'
             elems = _std_elems(rng, rng.choice([1, 3, 5]), used)
             trans = []
@@ -895,21 +1280,52 @@ def gen_cases(rng, tier):
             if rng.random() < 0.3:
                 priv_dict = [[c, (g0 << 16) | 0x1000 | low, 'LO', rng.choice(PRIV_NAMES)] for c in TEST_CREATORS for g0 in (0x0019, 0x0029)
                              for low in (1, 2, 3) if rng.random() < 0.4]
-        elif r < 0.62:
+        elif r < 0.60:
             kind = 'default-csa-translators'
             elems = _std_elems(rng, rng.choice([1, 3]), used)
             g = 0x0029
-            slot = rng.choice([0x10, 0x11, 0xe0])
+            slot = _slot(rng)
             used.add((g, slot))
             elems.append({'tag': [g, slot], 'vr': 'LO', 'val': 'SIEMENS CSA HEADER'})
+            csa = []
             for low, vr in ((0x08, 'CS'), (0x09, 'LO'), (0x10, 'OB'), (0x18, 'CS'), (0x20, 'OB'), (0x60, 'LO')):
                 if rng.random() < 0.7:
-                    val = {'b': rng.choice([[103, 97, 114, 98, 97, 103, 101], [83, 86, 49, 48], [0, 0, 0, 0], [120]])} if vr == 'OB' else rng.choice(['IMAGE NUM 4', 'MR', '20200101'])
+                    if vr == 'OB' and rng.random() < 0.6:
+                        # a syntactically valid CSA header: the translator succeeds
+                        csa.append(_csa_entry(rng, 'csa_image_trans_func' if low == 0x10 else 'csa_series_trans_func'))
+                        val = {'csa': len(csa) - 1}
+                    elif vr == 'OB':
+                        val = {'b': rng.choice([[103, 97, 114, 98, 97, 103, 101], [83, 86, 49, 48], [0, 0, 0, 0], [120]])}
+                    else:
+                        val = rng.choice(['IMAGE NUM 4', 'MR', '20200101'])
                     elems.append({'tag': [g, (slot << 8) | low], 'vr': vr, 'val': val})
             if rng.random() < 0.4:
                 blk, _, _ = _private_block(rng, used, 'SIEMENS MEDCOM HEADER', group=0x0029)
                 elems += blk
             cfg['rules'] = rng.choice([None, None, [], ['ignore_pixel_data', 'ignore_private']])
+            out.append({'kind': kind, 'priv_dict': priv_dict, 'cfg': cfg, 'elems': elems, 'csa': csa})
+            continue
+        elif r < 0.66:
+            # datasets written to a file (explicit or implicit VR little endian) and read back: raw file elements
+            kind = 'file-roundtrip'
+            mode = rng.choice(['explicit', 'explicit', 'implicit'])
+            elems = _file_elems(rng, rng.choice([3, 6, 10]), used)
+            trans = []
+            if rng.random() < 0.7:
+                creator = rng.choice(TEST_CREATORS)
+                g, slot = rng.choice([0x0019, 0x0029, 0x0051]), _slot(rng)
+                elems.append({'tag': [g, slot], 'vr': 'LO', 'val': creator})
+                for low in rng.sample([0x01, 0x02, 0x03, 0x10, 0xff], rng.choice([1, 2, 3])):
+                    vr = rng.choice(['LO', 'CS', 'DS', 'IS', 'US', 'FD', 'OB', 'SH'])
+                    v = _file_scalar(rng, vr)
+                    elems.append({'tag': [g, (slot << 8) | low], 'vr': vr, 'val': v})
+                    if rng.random() < 0.4 and not trans:
+                        trans.append({'name': 'T1', 'tag': [g, 0x1000 | low], 'creator': creator, 'kind': rng.choice([0, 5])})
+            cfg['trans'] = trans
+            cfg['rules'] = rng.choice([None, None, [], [x for x in RULE_NAMES if x != 'ignore_private']])
+            cfg['convs'] = rng.choice([None, None, None, [list(x) for x in DEFAULT_CONVS if x[0] not in ('DS',)]])
+            out.append({'kind': kind + '-' + mode, 'priv_dict': [], 'cfg': cfg, 'elems': elems, 'via_file': mode})
+            continue
         elif r < 0.80:
             kind = 'name-clash'
             elems = _std_elems(rng, rng.choice([2, 4]), used)
@@ -941,17 +1357,19 @@ def gen_cases(rng, tier):
                 elems += blk
             cfg['trans'] = rng.choice([None, []])
         elif r < 0.95:
-            # the known finding, varied
+            # the known finding, varied: two or three blocks of one creator at any slots; ignore_private on or off
+            #  (off: the untranslated elements of every block must still be judged)
             extra = _std_elems(rng, rng.choice([0, 2]), set([(0x0008, 0x0060)]))
-            c = _f12_case(extra=extra)
-            c['cfg']['rules'] = rng.choice([None, []])
-            c['cfg']['trans'][0]['kind'] = rng.choice([0, 5])
+            slots = sorted(rng.sample(range(0x10, 0x100), rng.choice([2, 2, 3])))
+            c = _f12_case(extra=extra, slots=slots, group=rng.choice([0x0019, 0x0029]), low=rng.choice([0x01, 0x10, 0xfe]), kind=rng.choice([0, 5]))
+            c['cfg']['rules'] = rng.choice([None, [], [x for x in RULE_NAMES if x != 'ignore_private']])
             out.append(c)
             continue
         else:
             kind = 'malformed'
             elems = _std_elems(rng, rng.choice([1, 2]), used)
             m = rng.randrange(3)
+            mal = ['text-under-numeric-vr', 'two-translators-one-slot', 'raising-translator-no-warn'][m]
             if m == 0:
                 t = rng.choice([(0x0028, 0x0010), (0x0028, 0x0100)])
                 elems = [e for e in elems if tuple(e['tag']) != t]
@@ -964,6 +1382,8 @@ def gen_cases(rng, tier):
                 elems += [{'tag': [0x0029, 0x0010], 'vr': 'LO', 'val': 'VERIF A'}, {'tag': [0x0029, 0x1001], 'vr': 'LO', 'val': 'v'}]
                 cfg['trans'] = [{'name': 'T1', 'tag': [0x0029, 0x1001], 'creator': 'VERIF A', 'kind': 3}]
                 cfg['warn'] = False
+            out.append({'kind': kind, 'malformed': mal, 'priv_dict': priv_dict, 'cfg': cfg, 'elems': elems})
+            continue
         out.append({'kind': kind, 'priv_dict': priv_dict, 'cfg': cfg, 'elems': elems})
     return out
 
